@@ -25,13 +25,21 @@ RULE = ("bounded-exhaustive enumeration (E1) of `msmart-ng control` command line
 ASSUMPTIONS = ["the reference device accepts every property id (no --capabilities)", "an uncaught exception is a non-zero process exit"]
 IP = "10.4.0.9"
 
+CAP_PAGES = None   # set below (needs refdevice.cap_record)
+
 REPORTED = [
     {"power": True, "mode": 2, "temp": 24.0, "fan": 102, "swing": 0, "humidity": 40, "display_on": True},
     {"power": False, "mode": 4, "temp": 17.5, "fan": 40, "swing": 0xF, "eco": True, "sleep": True, "fahrenheit": True, "freeze": True,
      "follow_me": True, "purifier": True, "humidity": 65, "aux_heat": True, "display_on": False},
     {"power": True, "mode": 6, "temp": 30.5, "fan": 60, "swing": 0xC, "turbo": True, "humidity": 70, "indep_aux": True, "display_on": True},
     {"power": True, "mode": 1, "temp": 13.0, "fan": 80, "swing": 0x3, "humidity": 35, "display_on": False},
+    # a unit reporting values that are not presets of what it advertises (custom fan speed 55, half-degree setpoint)
+    {"power": True, "mode": 2, "temp": 22.5, "fan": 55, "swing": 0xC, "humidity": 47, "display_on": True},
 ]
+
+CAP_PAGES = [[rd.cap_record(0x0210, 5), rd.cap_record(0x0214, 1), rd.cap_record(0x0215, 1), rd.cap_record(0x0212, 1), rd.cap_record(0x0224, 1),
+              rd.cap_record(0x0225, 0x22, 0x3C, 0x22, 0x3C, 0x22, 0x3C, 1)],
+             [rd.cap_record(0x0009, 1), rd.cap_record(0x000A, 1), rd.cap_record(0x0048, 2), rd.cap_record(0x0043, 1), rd.cap_record(0x00E3, 1)]]
 
 ENUMS = {"operational_mode": (AC.OperationalMode, "mode"), "fan_speed": (AC.FanSpeed, "fan"), "swing_mode": (AC.SwingMode, "swing"),
          "horizontal_swing_angle": (AC.SwingAngle, ("prop", rd.P_SWING_LR)), "vertical_swing_angle": (AC.SwingAngle, ("prop", rd.P_SWING_UD)),
@@ -122,20 +130,29 @@ def shards(tier):
     n = 12
     out = [("valid", i, n) for i in range(n)]
     out += [("pairs", i, 4) for i in range(4)]
+    out += [("caps", i, 4) for i in range(4)]
     out += [("invalid", 0, 1)]
     return out
 
 
-def run_cli(settings, rep_i, version=2):
+def reported_state(rep_i, capabilities):
+    # REPORTED[4] is a unit that advertises preset fan speeds only (CAP_PAGES) but reports speed 55: real units do contradict
+    # their capability reports (the library itself notes devices that "claim no capability but return energy data")
+    return dict(REPORTED[rep_i])
+
+
+def run_cli(settings, rep_i, version=2, capabilities=False):
     w = World()
     w.adopt_asyncio_run()
-    model = RefAC(REPORTED[rep_i])
+    model = RefAC(reported_state(rep_i, capabilities), cap_pages=CAP_PAGES)
     token, key = filler("c20/t", 64), filler("c20/k", 32)
     dev = SimDevice(version=version, device_id=0 if version == 2 else 4242, ac=model, token=token, key=key)
     w.net.listen(IP, 6444, dev)
     argv = ["msmart-ng", "control"]
     if version == 3:
         argv += ["--token", token.hex(), "--key", key.hex(), "--id", "4242"]
+    if capabilities:
+        argv += ["--capabilities"]
     argv += [IP] + list(settings)
     old = sys.argv
     sys.argv = argv
@@ -153,8 +170,8 @@ def run_cli(settings, rep_i, version=2):
         w.close()
 
 
-def expected_state(rep_i, exps):
-    base = RefAC(REPORTED[rep_i])
+def expected_state(rep_i, exps, breeze_control=False):
+    base = RefAC(reported_state(rep_i, breeze_control))
     st = dict(base.state)
     props = {}
     beep = None
@@ -171,6 +188,10 @@ def expected_state(rep_i, exps):
             pid = target[1]
             if pid == rd.P_IECO:
                 props[pid] = bytes([0, 1, 1 if val else 0]) + bytes(10)
+            elif breeze_control and pid in (rd.P_BREEZE_AWAY, rd.P_BREEZELESS, rd.P_BREEZE_CONTROL):
+                # the device advertises breeze control: all three settings travel under that id (1 off, 2 away, 3 mild, 4 breezeless)
+                on = {rd.P_BREEZE_AWAY: 2, rd.P_BREEZE_CONTROL: 3, rd.P_BREEZELESS: 4}[pid]
+                props[rd.P_BREEZE_CONTROL] = bytes([on if val else 1])
             elif pid == rd.P_BREEZE_AWAY:
                 props[pid] = bytes([2 if val else 1])
             elif pid == rd.P_BREEZE_CONTROL:
@@ -184,7 +205,7 @@ def expected_state(rep_i, exps):
 
 def judge_valid(st: Stats, case, code, model, net, exps, rep_i):
     prob = None
-    want, props, beep = expected_state(rep_i, exps)
+    want, props, beep = expected_state(rep_i, exps, breeze_control=bool(case.get("capabilities")))
     if code != ("exit", 0):
         prob = f"exit status {code}"
     elif model.state != want:
@@ -199,7 +220,14 @@ def judge_valid(st: Stats, case, code, model, net, exps, rep_i):
         if model.rejected:
             prob = f"device rejected a command: {model.rejected[0][1]}"
     if prob:
-        st.violation(f"{case['label']}: " + prob.split(":")[0].split("(")[0][:60], case, "documented interpretation", prob)
+        sig = f"{case['label']}: " + prob.split(":")[0].split("(")[0][:60]
+        toggled = any(t == "display" and v != reported_state(rep_i, False)["display_on"] for t, v in exps)
+        rep_fan = reported_state(rep_i, False)["fan"]
+        if (case.get("capabilities") and toggled and code == ("exit", 0) and rep_fan not in (20, 40, 60, 80, 100, 102)
+                and not any(t == "fan" for t, _ in exps)
+                and {k for k in want if model.state[k] != want[k]} == {"fan"} and model.state["fan"] == 102):
+            sig = "--capabilities + display toggle: unspecified non-preset fan speed of a preset-only unit rewritten to AUTO"
+        st.violation(sig, case, "documented interpretation", prob)
     return prob
 
 
@@ -207,7 +235,17 @@ def run_shard(shard, tier) -> Stats:
     kind, part, nparts = shard
     st = Stats()
     det = Determinism(first=2, every=299)
-    if kind in ("valid", "pairs"):
+    if kind == "caps":
+        # the same command lines with --capabilities: querying the capabilities must not change the meaning of the settings
+        cases = valid_cases()[::5] + pair_cases()[::7]
+        for i in range(part, len(cases), nparts):
+            label, settings, exps = cases[i]
+            for rep_i in (4, i % 4):
+                case = {"label": label + " --capabilities", "settings": settings, "reported": rep_i, "version": 2, "capabilities": True}
+                code, model, net, dev = run_cli(settings, rep_i, 2, capabilities=True)
+                prob = judge_valid(st, case, code, model, net, exps, rep_i)
+                st.ev((tuple(settings), rep_i, "caps"), "applied" if not prob else "wrong", True)
+    elif kind in ("valid", "pairs"):
         cases = valid_cases() if kind == "valid" else pair_cases()
         for i in range(part, len(cases), nparts):
             label, settings, exps = cases[i]
@@ -241,6 +279,6 @@ def run_shard(shard, tier) -> Stats:
 
 
 def replay(case):
-    code, model, net, dev = run_cli(case["settings"], case["reported"], case.get("version", 2))
+    code, model, net, dev = run_cli(case["settings"], case["reported"], case.get("version", 2), case.get("capabilities", False))
     return {"exit": code, "device_state": model.state, "props": {hex(k): v.hex() for k, v in model.props.items()},
             "connects": net.connect_attempts}
